@@ -26,6 +26,7 @@ import MTVerif.Lemmas.Normal
 import MTVerif.Lemmas.RewriteNoTD
 import MTVerif.Props.C11
 import MTVerif.Lemmas.Enforce
+import MTVerif.Lemmas.FuncDef
 namespace MT.C01
 open MT MT.Anno
 
@@ -287,6 +288,134 @@ theorem generator_annotation (sub : ClassId → ClassId → Bool) (ao : Bool) (s
 /-- an ordinary function: the emitted return annotation is the traced return type -/
 theorem plain_annotation (st : Strategy) (src : Option Nat) (r : Ty) (hsrc : src = none ∨ st = .ignore) :
     updateReturn st src (some r) none = some (.ty r) := MT.C13.plain_return st src r hsrc
+
+
+/-! ### one function, all its traces: `get_updated_definition` (Model/FuncDef)
+
+The theorems above speak about one position whose stored types are given.  `shrink_traced_types` is what finds those types: it
+walks all decoded traces of the function, files every argument type under its parameter name, applies the size limit of this run
+and merges.  The statements below are about the definition that comes out, for any number of traces with any argument names. -/
+
+section
+open MT.FuncDef
+variable (h : Hier)
+variable (htrans : ∀ a b c, h.sub a b = true → h.sub b c = true → h.sub a c = true)
+variable (hbase : ∀ c b, h.bases c = [b] → h.sub c b = true) (hrefl : ∀ c, h.sub c c = true)
+
+/-- the entry of the definition for the parameter at index `i` -/
+theorem definition_param (chain : List RW) (k : Nat) (st : Strategy) (f : FuncSrc) (traces : List CTrace)
+    (i : Nat) (p : SrcParam) (hp : f.params[i]? = some p) :
+    (updatedDefinition h chain k st f traces).params[i]? =
+      some (p.name, updateArg st (posOf f ((shrinkTraced k traces).1.map (fun nt => (nt.1, rewriteChain h chain nt.2))) p i)) := by
+  simp [updatedDefinition, List.getElem?_zipIdx, hp]
+
+include htrans hbase hrefl in
+/-- C01 for a parameter of a whole function: whatever traces of the function the store returned — any number, any order, each
+    with its own set of argument names, recorded under any size limits — a parameter that is not the receiver, is unannotated
+    in the source (or annotations are being ignored) and occurs in at least one trace is annotated with a type that admits
+    every value that was a (tight) member of the type recorded for it in any of the traces. -/
+theorem definition_arg_sound (cfg : RwCfg) (k : Nat) (st : Strategy) (f : FuncSrc) (traces : List CTrace)
+    (hw : ∀ tr ∈ traces, ∀ a ∈ tr.args, a.2.wf = true)
+    (i : Nat) (p : SrcParam) (hp : f.params[i]? = some p)
+    (hrecv : (f.kind.hasSelf && i == 0) = false) (hfree : p.src = none ∨ st = .ignore)
+    (tr : CTrace) (htr : tr ∈ traces) (t0 : Ty) (ht0 : (p.name, t0) ∈ tr.args) :
+    ∃ T, (updatedDefinition h cfg.chain k st f traces).params[i]? = some (p.name, some (.ty T)) ∧
+      ∀ v, conforms h.sub false t0 v = true → conforms h.sub true T v = true := by
+  have hmem : enforce k t0 ∈ typesFor p.name (allArgs k traces) :=
+    (mem_typesFor_allArgs k traces p.name _).mpr ⟨tr, htr, t0, ht0, rfl⟩
+  have hne : typesFor p.name (allArgs k traces) ≠ [] := List.ne_nil_of_mem hmem
+  refine ⟨positionType h cfg k (typesFor p.name (allArgs k traces)), ?_, ?_⟩
+  · rw [definition_param h cfg.chain k st f traces i p hp]
+    have hl : ((shrinkTraced k traces).1.map (fun nt => (nt.1, rewriteChain h cfg.chain nt.2))).lookup p.name =
+        some (positionType h cfg k (typesFor p.name (allArgs k traces))) := by
+      rw [lookup_mapSnd (rewriteChain h cfg.chain) p.name (shrinkTraced k traces).1, lookup_shrinkTraced]
+      simp [hne, positionType]
+    have := emitted_is_traced st (posOf f ((shrinkTraced k traces).1.map (fun nt => (nt.1, rewriteChain h cfg.chain nt.2))) p i)
+      (positionType h cfg k (typesFor p.name (allArgs k traces))) (by simpa [posOf] using hl) (by simpa [posOf] using hrecv)
+      (by simpa [posOf] using hfree)
+    rw [this]
+  · intro v hv
+    apply position_admits h htrans hbase hrefl cfg k
+    · intro t ht
+      obtain ⟨tr', htr', t1, ht1, rfl⟩ := (mem_typesFor_allArgs k traces p.name t).mp ht
+      exact enforce_wf k t1 (hw tr' htr' _ ht1)
+    · exact ⟨enforce k t0, hmem, enforce_widens h.sub false hrefl k t0 v (hw tr htr _ ht0) hv⟩
+
+/-- … and nothing is invented: a parameter without a source annotation that occurs in no trace has no annotation, under every
+    strategy and every rewriter -/
+theorem definition_untraced_param (chain : List RW) (k : Nat) (st : Strategy) (f : FuncSrc) (traces : List CTrace)
+    (i : Nat) (p : SrcParam) (hp : f.params[i]? = some p) (hsrc : p.src = none)
+    (hno : ∀ tr ∈ traces, ∀ a ∈ tr.args, a.1 ≠ p.name) :
+    (updatedDefinition h chain k st f traces).params[i]? = some (p.name, none) := by
+  rw [definition_param h chain k st f traces i p hp]
+  have hnil : typesFor p.name (allArgs k traces) = [] := by
+    apply List.eq_nil_iff_forall_not_mem.mpr
+    intro t ht
+    obtain ⟨tr, htr, t0, ht0, _⟩ := (mem_typesFor_allArgs k traces p.name t).mp ht
+    exact hno tr htr _ ht0 rfl
+  have hl : ((shrinkTraced k traces).1.map (fun nt => (nt.1, rewriteChain h chain nt.2))).lookup p.name = none := by
+    rw [lookup_mapSnd (rewriteChain h chain) p.name (shrinkTraced k traces).1, lookup_shrinkTraced]
+    simp [hnil]
+  rw [MT.C13.never_invented st _ (by simpa [posOf] using hsrc) (by simpa [posOf] using hl)]
+
+include htrans hbase hrefl in
+/-- C01 for the yield position of a whole function: if any trace has a yield type and the return position is unannotated in
+    the source (or annotations are ignored), the return annotation is `Iterator[Y]` or `Generator[Y, None, R]` and `Y` admits
+    every (tight) member of the yield type of every trace. -/
+theorem definition_yield_sound (cfg : RwCfg) (k : Nat) (st : Strategy) (f : FuncSrc) (traces : List CTrace)
+    (hw : ∀ tr ∈ traces, ∀ t, tr.yld = some t → t.wf = true)
+    (hfree : f.retSrc = none ∨ st = .ignore)
+    (tr : CTrace) (htr : tr ∈ traces) (y0 : Ty) (hy0 : tr.yld = some y0) :
+    ∃ a Y, (updatedDefinition h cfg.chain k st f traces).ret = some (.ty a) ∧ yieldPart a = some Y ∧
+      ∀ v, conforms h.sub false y0 v = true → conforms h.sub true Y v = true := by
+  have hmem : enforce k y0 ∈ yldTypes k traces := (mem_yldTypes k traces _).mpr ⟨tr, htr, y0, hy0, rfl⟩
+  have hne : (yldTypes k traces).isEmpty = false := by
+    cases hq : yldTypes k traces with
+    | nil => rw [hq] at hmem; cases hmem
+    | cons _ _ => rfl
+  obtain ⟨a, ha, hy, _⟩ := generator_annotation h.sub true st f.retSrc (positionType h cfg k (yldTypes k traces))
+    ((shrinkOpt k (retTypes k traces)).map (rewriteChain h cfg.chain)) hfree
+  refine ⟨a, positionType h cfg k (yldTypes k traces), ?_, hy, ?_⟩
+  · simp only [updatedDefinition, shrinkTraced, shrinkOpt, hne]
+    simpa [positionType, shrinkOpt] using ha
+  · intro v hv
+    apply position_admits h htrans hbase hrefl cfg k
+    · intro t ht
+      obtain ⟨tr', htr', t1, ht1, rfl⟩ := (mem_yldTypes k traces t).mp ht
+      exact enforce_wf k t1 (hw tr' htr' t1 ht1)
+    · exact ⟨enforce k y0, hmem, enforce_widens h.sub false hrefl k y0 v (hw tr htr y0 hy0) hv⟩
+
+include htrans hbase hrefl in
+/-- C01 for the return position of an ordinary function (no trace has a yield type): the return annotation is a type that
+    admits every (tight) member of the return type of every trace. -/
+theorem definition_return_sound (cfg : RwCfg) (k : Nat) (st : Strategy) (f : FuncSrc) (traces : List CTrace)
+    (hw : ∀ tr ∈ traces, ∀ t, tr.ret = some t → t.wf = true)
+    (hfree : f.retSrc = none ∨ st = .ignore) (hnoy : ∀ tr ∈ traces, tr.yld = none)
+    (tr : CTrace) (htr : tr ∈ traces) (r0 : Ty) (hr0 : tr.ret = some r0) :
+    ∃ R, (updatedDefinition h cfg.chain k st f traces).ret = some (.ty R) ∧
+      ∀ v, conforms h.sub false r0 v = true → conforms h.sub true R v = true := by
+  have hmem : enforce k r0 ∈ retTypes k traces := (mem_retTypes k traces _).mpr ⟨tr, htr, r0, hr0, rfl⟩
+  have hne : (retTypes k traces).isEmpty = false := by
+    cases hq : retTypes k traces with
+    | nil => rw [hq] at hmem; cases hmem
+    | cons _ _ => rfl
+  have hy : yldTypes k traces = [] := by
+    apply List.eq_nil_iff_forall_not_mem.mpr
+    intro t ht
+    obtain ⟨tr', htr', t1, ht1, _⟩ := (mem_yldTypes k traces t).mp ht
+    rw [hnoy tr' htr'] at ht1
+    cases ht1
+  refine ⟨positionType h cfg k (retTypes k traces), ?_, ?_⟩
+  · simp only [updatedDefinition, shrinkTraced, shrinkOpt, hne, hy]
+    simpa [positionType] using plain_annotation st f.retSrc (rewriteChain h cfg.chain (shrink k (retTypes k traces))) hfree
+  · intro v hv
+    apply position_admits h htrans hbase hrefl cfg k
+    · intro t ht
+      obtain ⟨tr', htr', t1, ht1, rfl⟩ := (mem_retTypes k traces t).mp ht
+      exact enforce_wf k t1 (hw tr' htr' t1 ht1)
+    · exact ⟨enforce k r0, hmem, enforce_widens h.sub false hrefl k r0 v (hw tr htr r0 hr0) hv⟩
+
+end
 
 /-! ### non-vacuity: the counter-example of the property text, `f([])` and `f(None)`, in the model -/
 
